@@ -164,6 +164,23 @@ theorem C14_handle_only_id (p : Prog) (env : Env) (srv : Srv) (id : Nat) (ht : p
     simp only [getResult_traced ht, ha, hf, handle_getRequest, h, Bool.not_true, Bool.false_eq_true, if_false]
     simpa [wrap] using h2
 
+/-- **Every** uncached call marked `lazy_result_` — whatever its function, arguments and nesting — that
+evaluates at all gives the client a `RemoteObject` whose id is fresh (not below the server's id counter
+before the call), and the pickled reply is that id alone. -/
+theorem C14_handle_lazy_call (f : Expr) (as : List Expr) (ks : List (String × Expr)) (env : Env) (srv : Srv)
+    (rv : RVal) (st : St) (hb : (Expr.call f as ks false true).badFlags = false) (hg : Good srv.lz)
+    (ha : env.alive0 = true) (hf : env.fate = .ok)
+    (h : eval (.call f as ks false true) srv.lz = (.ok rv, st)) :
+    ∃ id, srv.lz.nextId ≤ id ∧
+      (getResult (.expr (.call f as ks false true)) env srv).1 = .ok (.remote id) ∧
+      (handle (getRequest (.expr (.call f as ks false true))) srv).1 = .payload (.plain (.href id)) true := by
+  obtain ⟨id, hid, hle, _⟩ := eval_lazy_call_handle f as ks srv.lz st rv hg h
+  have ht : (Prog.expr (.call f as ks false true)).traceError = none := by simp [Prog.traceError, hb]
+  have hrun : (run (.expr (.call f as ks false true)) srv).1 = .ok (.plain (.handle id)) := by
+    simp only [run, runExpr, maybeMake, hb, Bool.false_eq_true, if_false, h, liftLazy, hid]
+  obtain ⟨h1, h2⟩ := C14_handle_only_id _ env srv id ht ha hf hrun
+  exact ⟨id, hle, h2, h1⟩
+
 /-- The value never crosses: the bytes sent back for `trace(v, lazy_result=True)` are the same for any
 two values — the reply is a function of the server's id counter only. -/
 theorem C14_handle_value_stays (v v' : Val) (srv : Srv) :
@@ -491,19 +508,6 @@ theorem C14_shutdown_sticky (p : Prog) (env : Env) (srv : Srv) :
     · rw [run_shutdown]; exact hs
 
 /-! ## C14_concurrent — requests on distinct objects commute -/
-
-/-- a fault-free `get_result` is a fixed function of the shutdown flag and of local evaluation -/
-theorem getResult_ok_form (p : Prog) (srv : Srv) (ht : p.traceError = none) :
-    getResult p {} srv =
-      (decode {} (match (run p srv).1 with
-        | .ok v => Reply.payload v.dumps true
-        | .error x => Reply.payload (.exc (if srv.shutdown then shutdownExc else x).dumps) true),
-       (run p srv).2) := by
-  simp only [getResult_traced ht, Bool.not_true, Bool.false_eq_true, if_false, handle_getRequest]
-  rfl
-
-theorem served_traceError {srv : Srv} {p : Prog} {t : Nat} (h : Served srv p t) : p.traceError = none := by
-  cases p <;> first | rfl | exact absurd h.2 id
 
 /-- **Concurrent clients.**  Two requests served by distinct server-side objects (two remote iterators,
 two remote queues, an iterator and a queue; `Served` names the cell each one works on) commute: each
